@@ -189,7 +189,8 @@ def run_history(h: dict) -> dict:
     stats["deliveries"] = mon.matched
     stats["falsy_delivered"] = mon.falsy_matched
     return {"problems": mon.problems, "stats": stats, "max_same_instant": lab.max_same_instant,
-            "observed": {str(i): [[k, show(v), tt] for (k, v, tt) in o.recv] for i, o in sorted(rt.obs.items())}}
+            "observed": {str(i): [[k, show(v), tt] for (k, v, tt) in o.recv] for i, o in sorted(rt.obs.items())},
+            "runs:free": {"quick": 1000, "thorough": 20000}, "free_injected_yields": {"quick": 3000, "thorough": 60000}}
 
 
 def run_case(seed: int, idx: int, res: UnitResult) -> None:
